@@ -176,6 +176,51 @@ def riccDoubling (sol : M α → M α → Option (M α)) (tol : α) (maxIter : N
     | .ok H p es => some (.ok (madd H (smul g (ident Q.nr))) p es)
     | r => some r
 
+/-! ### entry points: method dispatch, argument defaults, `m_quadratic_sum` glue -/
+
+/-- what `solve_discrete_lyapunov(A, B, max_it, method)` does with its options (lines 65-95):
+    `ok`/`maxit` from the doubling loop, `external` = delegated to SciPy (bartels-stewart, not modelled),
+    `badMethod` = `ValueError("Check your method input …")` -/
+inductive LyapEntryOut (α : Type) where
+  | ok (X : M α) (nIts : Nat)
+  | maxit (nIts : Nat)
+  | external
+  | badMethod
+
+/-- `max_it` is any Python integer: the loop only evaluates `n_its > max_it` with `n_its ≥ 2`, so every
+    `max_it ≤ 1` behaves like `0` -/
+def lyapEntry (tol : α) (method : String) (maxIt : Int) (A B : M α) : LyapEntryOut α :=
+  if method = "doubling" then
+    match lyapDoubling tol maxIt.toNat A B with
+    | .ok X n _ => .ok X n
+    | .maxit n _ => .maxit n
+  else if method = "bartels-stewart" then .external
+  else .badMethod
+
+/-- `m_quadratic_sum(A, B, max_it)` (quantecon/_quadsums.py): `solve_discrete_lyapunov(A, B, max_it)`,
+    i.e. the doubling method with `max_it` passed positionally -/
+def mQuadraticSum (tol : α) (maxIt : Int) (A B : M α) : LyapEntryOut α := lyapEntry tol "doubling" maxIt A B
+
+/-- lines 159-164: `N = None` becomes `np.zeros((n, k))`, `n, k = R.shape[0], Q.shape[0]` -/
+def riccN (N? : Option (M α)) (Q R : M α) : M α :=
+  match N? with
+  | none => zero R.nr Q.nr
+  | some N => N
+
+inductive RiccEntryOut (α : Type) where
+  /-- `ValueError("Check your method input …")`, raised before anything else is looked at (lines 148-151) -/
+  | badMethod
+  /-- `method = 'qz'`: delegated to SciPy (lines 166-168) -/
+  | external
+  | run (r : Option (RiccOut α))
+
+/-- option handling of `solve_discrete_riccati` (after the choice of gamma for the doubling branch) -/
+def riccEntry (sol : M α → M α → Option (M α)) (tol : α) (maxIter : Nat) (g : α) (method : String)
+    (A B Q R : M α) (N? : Option (M α)) : RiccEntryOut α :=
+  if method = "doubling" then .run (riccDoubling sol tol maxIter g A B Q R (riccN N? Q R))
+  else if method = "qz" then .external
+  else .badMethod
+
 end generic
 
 /-! ### driver -/
@@ -297,6 +342,38 @@ def handle (toks : List String) : String :=
           (riccDoubling solve tol mi g (matOf A) (matOf B) (matOf Q) (matOf R) (matOf N))
       else "bad-op"
     | _, _, _, _, _, _, _, _ => "bad-op"
+  | "lyapentry" :: r =>
+    -- option handling of solve_discrete_lyapunov / m_quadratic_sum (entry=mqs): method string, any integer max_it
+    match kvRatMat r "A", kvRatMat r "B", kvRat r "tol", kvInt r "maxit", kv r "method", kv r "entry" with
+    | some A, some B, some tol, some mi, some method, some entry =>
+      if isSq A && isSq B && A.length == B.length then
+        let out := if entry = "mqs" then mQuadraticSum tol mi (matOf A) (matOf B)
+                   else lyapEntry tol method mi (matOf A) (matOf B)
+        match out with
+        | .ok X n => s!"ok its={n} X={showRatM X}"
+        | .maxit n => s!"ERR:ValueError its={n}"
+        | .external => "EXTERNAL"
+        | .badMethod => "ERR:ValueError method"
+      else "bad-op"
+    | _, _, _, _, _, _ => "bad-op"
+  | "riccentry" :: r =>
+    -- option handling of solve_discrete_riccati: method string, N=none -> zeros((n, k))
+    match kvRat r "g", kvRatMat r "A", kvRatMat r "B", kvRatMat r "Q", kvRatMat r "R", kv r "N",
+          kvRat r "tol", kvNat r "maxit", kv r "method" with
+    | some g, some A, some B, some Q, some R, some nTok, some tol, some mi, some method =>
+      let N? : Option (Option (List (List Rat))) :=
+        if nTok = "none" then some none else (parseMat? parseRat? nTok).map some
+      match N? with
+      | none => "bad-op"
+      | some Nopt =>
+        let Nrows := match Nopt with | none => (List.replicate R.length (List.replicate Q.length (0 : Rat))) | some N => N
+        if riccShapesOk A B Q R Nrows then
+          match riccEntry solve tol mi g method (matOf A) (matOf B) (matOf Q) (matOf R) (Nopt.map matOf) with
+          | .badMethod => "ERR:ValueError method"
+          | .external => "EXTERNAL"
+          | .run out => riccShow showRatM showApprox out
+        else "bad-op"
+    | _, _, _, _, _, _, _, _, _ => "bad-op"
   | _ => "bad-op"
 
 end QE.C06
